@@ -132,6 +132,8 @@ def verify_function(funcs, spec, seed=0):
         try:
             if case.setup:
                 case.setup(facts)
+            for k_, v_ in case.aux.get('mem', {}).items():
+                st.mem[k_] = v_
             npath = 0
             for st2, ret in interp.run(func, case.args, st):
                 npath += 1
